@@ -362,8 +362,37 @@ func runC05(c *Ctx) {
 	rule6 := "O-6 one accepted connection per stream"
 	qc := p.Fn("server/lib", "(*SnowflakeListener).queueConn")
 	as := p.Fn("server/lib", "(*SnowflakeListener).acceptStreams")
-	if qc == nil || as == nil {
-		c.undecided(rule6, "queueConn/acceptStreams", "-", "anchor does not resolve")
+	if as == nil {
+		c.undecided(rule6, "acceptStreams", "-", "anchor does not resolve")
+		return
+	}
+	if qc == nil {
+		// queueConn was inlined into its caller: the same obligations on the send itself
+		var acc *ssa.Call
+		for _, ci := range callsIn(as) {
+			if strings.HasSuffix(calleeName(ci), "smux.Session).AcceptStream") {
+				acc, _ = ci.(*ssa.Call)
+			}
+		}
+		nSend := 0
+		for _, fn := range srv {
+			for _, op := range chanOpsIn(p, fn) {
+				if op.Dir != chSend || op.Class != "SnowflakeListener.queue" {
+					continue
+				}
+				nSend++
+				c.check(fn == as, rule6, p.FnName(fn)+" sends on the accept queue", p.instrPos(op.Instr), "", "the accept queue has a sender other than acceptStreams")
+				if fn == as && acc != nil {
+					path := reachableWithout(as, op.Instr, errNilEdges(as, acc, 1))
+					c.check(path == nil, rule6, "a connection is queued only for a successfully accepted stream", p.instrPos(op.Instr), "", "the send on the accept queue is reachable without AcceptStream having succeeded", p.pathString(path)...)
+					okWrap := op.Val != nil && flows(op.Val, func(v ssa.Value) bool { return isResultOfCall(v, acc, 0) })
+					c.check(okWrap, rule6, "the queued connection wraps the accepted stream", p.instrPos(op.Instr), "", "the connection handed to Accept is not built from the stream just accepted")
+				}
+			}
+		}
+		if nSend != 1 {
+			c.undecided(rule6, "senders on SnowflakeListener.queue", "-", fmt.Sprintf("%d found, expected one", nSend))
+		}
 		return
 	}
 	callers := p.realCallers(qc)
